@@ -7,6 +7,7 @@ import PasfmtModel.Model.Contracts
 import PasfmtModel.Proofs.MlsSim
 import PasfmtModel.Proofs.LinesCustom
 import PasfmtModel.Proofs.MlsMore
+import PasfmtModel.Proofs.MlsPipeline
 
 namespace Pasfmt.C12
 
@@ -338,5 +339,179 @@ theorem mls_one_token_settings_counterexample :
 theorem mls_token_ends_quote (content rest : Bytes)
     (hscan : textLiteral (content ++ rest) = (content.length, .tMultiLine)) : content.getLast? = some 0x27 :=
   MlsMore.multi_ends_quote content rest hscan
+
+/-! ### end to end, for the closed model of the whole formatter (helpers in `Proofs/MlsPipeline.lean`)
+
+`formatFull cfg alnum s` = scanner, parser and consolidators, ignore marks and token rules, the wrapper stage with the
+search inside (`wrapStageFull`), the reconstructor.  `MlsPipe.MlsChain S k c c'`: `c'` is obtained from `c` by exactly
+`k` successive applications of the re-indenter `mlsRewrite S` (each with its own pair of counters, each changing the
+text). -/
+
+open MlsPipe in
+/-- **C12 through the wrapper stage, token by token, whatever solutions the search returns.**  Let `t` be token `j`
+    when the stage starts, and let its text end in a quote if it is typed multi-line literal (true of every scanned
+    literal).  Then the stage ends with a token `tz` at position `j` of the same kind and ignored flag, and either the
+    token is untouched; or its text is the result of one application of the re-indenter (first *or* second string
+    pass); or of two, the second one with the counters the token has in the end.  The last two only for a token that
+    is not ignored, is typed multi-line literal, and with `format_multiline_strings = true`.  In particular the text
+    is reached by a chain of at most two applications, and the token is untouched if it is ignored, of another kind,
+    or the option is off.  (Within one pass a token that is visited twice is rewritten once: idempotence.) -/
+theorem stage_mls_contents (cfg : Config) (lines : List Line) (ft ftz : FT) (sols : List (Nat × Nat × Sol))
+    (h : wrapStageFull cfg lines ft = some (ftz, sols)) (j : Nat) (t : FTok) (hj : ft[j]? = some t)
+    (hq : isMlsKind t.tok.kind = true → t.tok.content.getLast? = some 0x27) :
+    ∃ tz, ftz[j]? = some tz ∧ tz.tok.kind = t.tok.kind ∧ tz.fmt.ignored = t.fmt.ignored ∧
+      (tz.tok = t.tok ∨
+        (t.fmt.ignored = false ∧ isMlsKind t.tok.kind = true ∧ cfg.fmtMls = true ∧
+          ((∃ i k, mlsRewrite cfg.settings t.tok.content i k = some tz.tok.content) ∨
+           (∃ i k c1, mlsRewrite cfg.settings t.tok.content i k = some c1 ∧
+              mlsRewrite cfg.settings c1 tz.fmt.ind tz.fmt.cont = some tz.tok.content)))) ∧
+      (∃ k, k ≤ 2 ∧ MlsChain cfg.settings k t.tok.content tz.tok.content) ∧
+      (t.fmt.ignored = true ∨ isMlsKind t.tok.kind = false ∨ cfg.fmtMls = false → tz.tok = t.tok) := by
+  obtain ⟨tz, h1, h2, h3, h4⟩ := wrapStageFull_at cfg lines ft ftz sols h j t hj hq
+  exact ⟨tz, h1, h2, h3, h4, h4.chain, h4.frozen⟩
+
+open MlsPipe in
+/-- the same for all tokens at once and without any hypothesis on the texts (then without the bound "two"): the stage
+    keeps the number of tokens, every kind and every ignored flag; a text changes through applications of the
+    re-indenter only (`MlsReach` = some chain); ignored tokens, tokens of other kinds, and all tokens when
+    `format_multiline_strings = false` are untouched -/
+theorem stage_mls_reach (cfg : Config) (lines : List Line) (ft ftz : FT) (sols : List (Nat × Nat × Sol))
+    (h : wrapStageFull cfg lines ft = some (ftz, sols)) :
+    ftz.length = ft.length ∧
+    ∀ (j : Nat) (t : FTok), ft[j]? = some t → ∃ tz, ftz[j]? = some tz ∧ tz.tok.kind = t.tok.kind ∧
+      tz.fmt.ignored = t.fmt.ignored ∧ MlsReach cfg.settings t.tok.content tz.tok.content ∧
+      (t.fmt.ignored = true ∨ isMlsKind t.tok.kind = false ∨ cfg.fmtMls = false → tz.tok = t.tok) := by
+  have hr := wrapStageFull_reach cfg lines ft ftz sols h
+  refine ⟨(all2_length hr).symm, ?_⟩
+  intro j t hj
+  obtain ⟨tz, hz, r⟩ := all2_getElem? hr hj
+  exact ⟨tz, hz, r.kind, r.ign, r.reach, r.frozen⟩
+
+/-- **the token rules before the stage keep literals**: the two rules that rewrite token text (`LowercaseKeywords`,
+    `CommentFormatter`) return a token typed text literal - of any sort - exactly as they got it -/
+theorem rules_keep_literals (U : Bytes → Bool) (t : FTok) (k : TextLiteralKind) (h : t.tok.kind = .tTextLiteral k) :
+    commentFormatTok U (lowercaseTok t) = t :=
+  MlsPipe.rules_keep_tok U t (Or.inl (by rw [h]; rfl))
+
+/-- the same for the whole prefix of the pipeline up to the wrapper stage (`TokenSpacing`, `LowercaseKeywords`,
+    `CommentFormatter`, `EofNewline`, for any parser result): as many tokens as scanned, and a token that is ignored
+    or whose kind is not keyword / line comment / directive (`MlsPipe.ruleKind`) has its scanned text -/
+theorem rules_keep_literals_preWrap (O : Oracles) (raw : List RawTok) :
+    (preWrap O raw).2.2.length = raw.length ∧
+    ∀ (j : Nat) (r : RawTok), raw[j]? = some r → ∃ t, (preWrap O raw).2.2[j]? = some t ∧
+      (MlsPipe.ruleKind t.tok.kind = false ∨ t.fmt.ignored = true → t.tok.content = r.content) := by
+  have hr := MlsPipe.preWrap_keeps O raw
+  exact ⟨(MlsPipe.all2_length hr).symm, fun j r hj => MlsPipe.all2_getElem? hr hj⟩
+
+/-- every token that the scanner types `TextLiteral(MultiLine)` ends in a quote -/
+theorem scanned_mls_ends_quote (s : Bytes) (raw : List RawTok) (h : lex s = some raw) (r : RawTok) (hr : r ∈ raw)
+    (hk : r.kind = .rTextLiteral .tMultiLine) : r.content.getLast? = some 0x27 :=
+  MlsPipe.lex_multi_ends_quote s raw h r hr hk
+
+/-- **the parser and the consolidators never retype a text literal** (`Proofs/ParserLiterals.lean`: an invariant over
+    the whole control flow of the parser model - every write of a token type is guarded by a test that no text literal
+    passes): in the kinds the formatter works with, a token that the scanner typed `TextLiteral(k)` is typed
+    `TextLiteral(k)` -/
+theorem parser_keeps_literals (raw : List RawTok) (po : ParserOut) (h : parseAndConsolidate raw = some po)
+    (i : Nat) (r : RawTok) (k : TextLiteralKind) (hi : raw[i]? = some r) (hk : r.kind = .rTextLiteral k) :
+    po.kinds[i]? = some (.tTextLiteral k) :=
+  ParserLit.parseAndConsolidate_keeps_literals raw po h i r k hi hk
+
+/-- **C12 for the closed model of the whole formatter: values.**  Whenever the formatter answers, its answer is the
+    reconstruction of a final token state `ftz` with as many tokens as the scanner produced, and for every token `j`
+    that the scanner typed `TextLiteral(MultiLine)`, with `tz` the final token at position `j`:
+    `tz` is still typed multi-line literal and its text ends in a quote; **the value of the literal is the scanned
+    literal's value**; the text is the scanned text after at most two applications of the re-indenter; and it is the
+    scanned text, byte for byte, in a verbatim region (`tz` ignored) and when `format_multiline_strings = false`.
+    No hypothesis on the input. -/
+theorem formatFull_mls_values (cfg : Config) (alnum : Bytes → Bool) (s out : Bytes)
+    (h : formatFull cfg alnum s = some out) :
+    ∃ (raw : List RawTok) (ftz : FT), lex s = some raw ∧ out = reconstruct cfg.settings ftz ∧
+      ftz.length = raw.length ∧
+      ∀ (j : Nat) (r : RawTok), raw[j]? = some r → r.kind = .rTextLiteral .tMultiLine →
+        ∃ tz, ftz[j]? = some tz ∧
+          tz.tok.kind = .tTextLiteral .tMultiLine ∧ tz.tok.content.getLast? = some 0x27 ∧
+          MlsMore.literalValue tz.tok.content = MlsMore.literalValue r.content ∧
+          (∃ k, k ≤ 2 ∧ MlsPipe.MlsChain cfg.settings k r.content tz.tok.content) ∧
+          (tz.fmt.ignored = true → tz.tok.content = r.content) ∧
+          (cfg.fmtMls = false → tz.tok.content = r.content) := by
+  obtain ⟨raw, ftz, h1, h2, h3, h4⟩ := MlsPipe.formatFull_literals cfg alnum s out h
+  refine ⟨raw, ftz, h1, h2, h3, ?_⟩
+  intro j r hj hk
+  obtain ⟨tz, hz, kept⟩ := h4 j r hj hk
+  exact ⟨tz, hz, kept.kind, kept.ends, kept.value, kept.chain, kept.ignored, kept.off⟩
+
+/-- the chain of `formatFull_mls_values` spelled out, with the counters of the last application: the final text of a
+    scanned multi-line literal is the scanned text; or (only outside verbatim regions and with
+    `format_multiline_strings = true`) the result of one application of the re-indenter to it (in the first or in
+    the second string pass); or of two, the second one with the token's own final counters `tz.fmt.ind`,
+    `tz.fmt.cont` - the ones the reconstructor reads.  `mls_indent_exact` then gives the exact indentation of the
+    closing quotes and of every interior line in terms of the counters of the last application. -/
+theorem formatFull_mls_outcome (cfg : Config) (alnum : Bytes → Bool) (s out : Bytes)
+    (h : formatFull cfg alnum s = some out) :
+    ∃ (raw : List RawTok) (ftz : FT), lex s = some raw ∧ out = reconstruct cfg.settings ftz ∧
+      ftz.length = raw.length ∧
+      ∀ (j : Nat) (r : RawTok), raw[j]? = some r → r.kind = .rTextLiteral .tMultiLine →
+        ∃ tz, ftz[j]? = some tz ∧
+          (tz.tok.content = r.content ∨
+            (tz.fmt.ignored = false ∧ cfg.fmtMls = true ∧
+              ((∃ i k, mlsRewrite cfg.settings r.content i k = some tz.tok.content) ∨
+               (∃ i k c1, mlsRewrite cfg.settings r.content i k = some c1 ∧
+                  mlsRewrite cfg.settings c1 tz.fmt.ind tz.fmt.cont = some tz.tok.content)))) := by
+  obtain ⟨raw, ftz, h1, h2, h3, h4⟩ := MlsPipe.formatFull_literals cfg alnum s out h
+  refine ⟨raw, ftz, h1, h2, h3, ?_⟩
+  intro j r hj hk
+  obtain ⟨tz, hz, kept⟩ := h4 j r hj hk
+  exact ⟨tz, hz, kept.outcome⟩
+
+/-- a literal with an interior line that neither starts with the indentation of the closing line nor is a prefix of
+    it is rejected by the re-indenter, for every pair of counters -/
+theorem mls_rejects_bad_line (S : Settings) (content : Bytes) (ind cont : Nat)
+    (h : ∃ l ∈ (linesCustom content).tail,
+      lineValue ((lastLineOf content).take (countLeadingWs (lastLineOf content))) l = none) :
+    mlsRewrite S content ind cont = none := by
+  unfold mlsRewrite
+  simp only
+  split
+  · rfl
+  · unfold tryRewriteString
+    cases hl : linesCustom content with
+    | nil => rw [hl] at h; simp at h
+    | cons first rest =>
+      rw [hl] at h
+      simp only [List.tail_cons] at h
+      simp only [rewriteLines_rejects S ind cont _ rest h, Option.map_none]
+
+/-- **C12 for the closed model of the whole formatter: literals that violate the indentation rule.**  With the
+    notation of `formatFull_mls_values`: if the re-indenter rejects the scanned literal for every pair of counters -
+    e.g. because of an interior line that neither starts with the closing line's indentation nor is a prefix of it,
+    or of text before the closing quotes (`mls_rejects_bad_line`, `mls_rejects_text_before_quotes`) - then it is
+    reproduced byte for byte.  No hypothesis on the input. -/
+theorem formatFull_mls_rejected_verbatim (cfg : Config) (alnum : Bytes → Bool) (s out : Bytes)
+    (h : formatFull cfg alnum s = some out) :
+    ∃ (raw : List RawTok) (ftz : FT), lex s = some raw ∧ out = reconstruct cfg.settings ftz ∧
+      ftz.length = raw.length ∧
+      ∀ (j : Nat) (r : RawTok), raw[j]? = some r → r.kind = .rTextLiteral .tMultiLine →
+        (∀ ind cont, mlsRewrite cfg.settings r.content ind cont = none) →
+        ∃ tz, ftz[j]? = some tz ∧ tz.tok.content = r.content := by
+  obtain ⟨raw, ftz, h1, h2, h3, h4⟩ := MlsPipe.formatFull_literals cfg alnum s out h
+  refine ⟨raw, ftz, h1, h2, h3, ?_⟩
+  intro j r hj hk hrej
+  obtain ⟨tz, hz, kept⟩ := h4 j r hj hk
+  exact ⟨tz, hz, kept.rejected hrej⟩
+
+/-- the same for the violation named in C12: an interior line of the scanned literal that neither starts with the
+    blanks in front of the closing quotes nor is a prefix of them -/
+theorem formatFull_mls_bad_line_verbatim (cfg : Config) (alnum : Bytes → Bool) (s out : Bytes)
+    (h : formatFull cfg alnum s = some out) :
+    ∃ (raw : List RawTok) (ftz : FT), lex s = some raw ∧ out = reconstruct cfg.settings ftz ∧
+      ftz.length = raw.length ∧
+      ∀ (j : Nat) (r : RawTok), raw[j]? = some r → r.kind = .rTextLiteral .tMultiLine →
+        (∃ l ∈ (linesCustom r.content).tail,
+          lineValue ((lastLineOf r.content).take (countLeadingWs (lastLineOf r.content))) l = none) →
+        ∃ tz, ftz[j]? = some tz ∧ tz.tok.content = r.content := by
+  obtain ⟨raw, ftz, h1, h2, h3, h4⟩ := formatFull_mls_rejected_verbatim cfg alnum s out h
+  exact ⟨raw, ftz, h1, h2, h3, fun j r hj hk hbad =>
+    h4 j r hj hk (fun ind cont => mls_rejects_bad_line cfg.settings r.content ind cont hbad)⟩
 
 end Pasfmt.C12
